@@ -474,8 +474,8 @@ impl<'a, 'b> G<'a, 'b> {
     fn cond_name(&mut self) -> String {
         match self.t.weighted(&[6, 2, if self.cfg.position { 1 } else { 0 }]) {
             0 => {
-                let names: Vec<&str> = MACRO_NAMES.iter().copied().filter(|n| *n != "wire" && *n != "begin").collect();
-                self.t.pick_str(&names).to_string()
+                // macro names that are SystemVerilog keywords (wire, begin) are legal operands too
+                self.t.pick_str(MACRO_NAMES).to_string()
             }
             1 => "UNDEF_Q".to_string(),
             _ => self.t.pick_str(&["__FILE__", "__LINE__"]).to_string(),
@@ -662,8 +662,7 @@ impl<'a, 'b> G<'a, 'b> {
                         let ws = self.ws();
                         out.push(Item::UndefineAll(ws));
                     } else {
-                        let names: Vec<&str> = MACRO_NAMES.iter().copied().filter(|n| *n != "wire" && *n != "begin").collect();
-                        let name = self.t.pick_str(&names).to_string();
+                        let name = self.t.pick_str(MACRO_NAMES).to_string();
                         if live {
                             self.table.remove(&name);
                         }
